@@ -225,6 +225,8 @@ def oracle_labels(ck, rng):
             seen["chunks"] = image_stack.chunks
             seen["args"] = (n_components, n_clusters, seed)
             self._n = image_stack.shape[0]
+            # which sub-volume sits in which row of the stack (the harness plants a one-hot pattern around every molecule)
+            seen["row_argmax"] = [int(v) for v in np.asarray(image_stack).reshape(self._n, -1).argmax(axis=1)]
 
         def run(self):
             self._labels = np.array(seen["script"][: self._n], dtype=np.int32)
@@ -261,6 +263,32 @@ def oracle_labels(ck, rng):
             ck.oracle_count("label_writeback", 1, 1)
             for f in fails:
                 ck.violation(what=f"loader.classify: {f}", inp={"n": nm, "script": script}, key={"site": "labels", "symptom": f[:24]}, oracle="label_writeback")
+        # the i-th image handed to the classifier is the i-th molecule's, also for batches whose tomogram ids appear in any order:
+        # every molecule's 1x1x9 sub-volume is one-hot at its own index (the normalised difference to the average keeps that arg-max)
+        for i in range(4 if ck.tier == "quick" else 24):
+            ids = [[7, 3], [3, 7], [2, 0, 5], [1, 0]][i % 4]
+            b = BatchLoader(order=0, output_shape=(1, 1, 9))
+            val = 0
+            for iid in ids:
+                nm_ = int(rng.integers(2, 4))
+                tomo = np.zeros((5, 5, 12 * nm_), dtype=np.float32)
+                pos, vals = [], []
+                for p_ in range(nm_):
+                    cx = 12 * p_ + 6
+                    tomo[2, 2, cx - 4 + val] = 5.0
+                    pos.append([2.0, 2.0, float(cx)]); vals.append(val); val += 1
+                b.add_tomogram(tomo, Molecules(np.array(pos), features={"want": vals}), image_id=iid)
+            perm = [int(x) for x in rng.permutation(len(b.molecules))]
+            if i % 2:
+                b = b.replace(molecules=b.molecules.subset(perm))
+            seen["script"] = list(range(100, 100 + len(b.molecules)))
+            res = b.classify(mask=None, n_components=2, n_clusters=2, label_name="cls")
+            want_rows = b.molecules.features["want"].to_list()
+            ck.oracle_count("label_writeback", 1, 1)
+            if seen.get("row_argmax") != want_rows or res.loader.molecules.features["cls"].to_list() != seen["script"]:
+                ck.violation(what=f"batch.classify with image ids {ids}{' (molecules permuted)' if i % 2 else ''}: the classifier's stack rows hold the sub-volumes of "
+                                  f"molecules {seen.get('row_argmax')} instead of {want_rows}", inp={"image_ids": ids, "permuted": bool(i % 2)},
+                             key={"site": "labels", "symptom": "stack rows not in molecule order"}, oracle="label_writeback")
     finally:
         acl.PcaClassifier = real
 
